@@ -223,6 +223,9 @@ pub fn convert(src: &str) -> String {
                     continue;
                 }
                 let value = cur.get_token_nest('{', '}');
+                if name.is_empty() { // empty name never matches
+                    continue;
+                }
                 items.set_item(&name, &value);
                 items.sort_items();
                 continue;
